@@ -265,4 +265,6 @@ var verifC05Shapes = [][]int{
 	5: {0, 1, 2, 3, 4, 5}, // one each in six buckets
 	6: {4, 4, 4, 4, 4, 4, 4, 5}, // 7 + 1
 	7: {2, 1, 2},          // 2 + 1, candidates for arbitrary put order
+	8: {1, 0, 0, 0},       // one in bucket 0x0001 (LE), then three in its predecessor bucket 0x0000: more than the
+	//                        (rewritten) initial capacity 2, so an append that grows past the capacity must not touch the neighbour
 }
